@@ -10,6 +10,9 @@ PLAT = {"ok": "PlatOk", "env_missing": "PlatEnvMissing", "bad": "PlatBad"}
 TIN = {"ok": "InOk", "missing": "InMissing", "malformed": "InMalformed"}
 DET = {"pass": "BPass", "pass_plan": "BPassPlan", "fail": "BFail", "error": "BErr",
        "pass_plan_or": "BPassPlan", "pass_plan_empty": "BPassPlan"}   # plan shapes: all must be written
+# names that are not exactly "detect" / "build": near misses in case, prefix, suffix, extension, stem
+OTHER_NAMES = ["other", "detect.bak", "build.old", "detect.sh", "build.exe", "detect.exe", "detectx", "xbuild", "Detect",
+               "BUILD", "detect.", "build.", ".detect", ".build", "detect-1", "build_", "det", "b", "detect build"]
 FMT = {"cdx": "FCdx", "spdx": "FSpdx", "syft": "FSyft"}
 FOBS = {"absent": "FAbsent", "pre": "FPre", "new": "FNew", "other": "FOther", "n/a": "FAbsent"}
 
@@ -68,6 +71,11 @@ class C05:
         cases = []
         for exe, nargs, bpdir, desc in itertools.product(EXE, range(5), [True, False], DESC):
             cases.append(base_cfg(exe=exe, nargs=nargs, bpdir=bpdir, desc=desc))
+            if exe == "other":
+                cases[-1]["exe_name"] = rng.choice(OTHER_NAMES)
+        # every wrong name, with the argument counts detect and build would accept
+        for nm, nargs in itertools.product(OTHER_NAMES, (2, 3)):
+            cases.append(base_cfg(exe="other", exe_name=nm, nargs=nargs))
         inputs = []
         for exe in ("detect", "build"):
             for vs in itertools.product([True, False], repeat=5):
@@ -115,15 +123,18 @@ class C05:
         return []
 
     def sample(self, c, o):
-        return {"cfg": {k: c[k] for k in ("exe", "nargs", "bpdir", "desc", "vars", "plat", "plan", "store", "det", "build", "writable", "pre")},
+        return {"cfg": {k: c[k] for k in ("exe", "exe_name", "nargs", "bpdir", "desc", "vars", "plat", "plan", "store", "det", "build", "writable", "pre") if k in c},
                 "observed": {k: o.get(k) for k in ("exit", "detect_entered", "build_entered", "on_error", "plan", "launch", "store")}}
 
     def distribution(self, cases, obs):
-        d = {"exit": {}, "exe": {}, "entered": 0, "on_error": 0}
+        d = {"exit": {}, "exe": {}, "other_names": {}, "entered": 0, "on_error": 0}
         for c in cases:
             o = obs[c["id"]]
             d["exit"][str(o["exit"])] = d["exit"].get(str(o["exit"]), 0) + 1
             d["exe"][c["exe"]] = d["exe"].get(c["exe"], 0) + 1
+            if c["exe"] == "other":
+                nm = c.get("exe_name", "other")
+                d["other_names"][nm] = d["other_names"].get(nm, 0) + 1
             d["entered"] += o["detect_entered"] + o["build_entered"]
             d["on_error"] += o["on_error"]
         return d
